@@ -188,25 +188,25 @@ package getty
 //@   requires client != nil
 //@   modifies ghost.begin_sends, ghost.commit_sends, ghost.rollback_sends, ghost.other_sends, ghost.commit_acked, ghost.rollback_acked, ghost.commit_refused, ghost.rollback_refused, ghost.last_send_failed, ghost.commit_xid, ghost.rollback_xid, ghost.begin_xid
 //@   ensures ghost.last_send_failed == (result1 != nil)
-//@   ensures result1 == nil && isT(msg, message.GlobalBeginRequest) ==> ghost.begin_xid == result0.(message.GlobalBeginResponse).Xid
-//@   ensures !(result1 == nil && isT(msg, message.GlobalBeginRequest)) ==> ghost.begin_xid == old(ghost.begin_xid)
+//@   ensures result1 == nil && result0 != nil && isT(msg, message.GlobalBeginRequest) ==> ghost.begin_xid == result0.(message.GlobalBeginResponse).Xid
+//@   ensures !(result1 == nil && result0 != nil && isT(msg, message.GlobalBeginRequest)) ==> ghost.begin_xid == old(ghost.begin_xid)
 //@   ensures ghost.begin_sends == old(ghost.begin_sends) + ite(isT(msg, message.GlobalBeginRequest), 1, 0)
 //@   ensures ghost.commit_sends == old(ghost.commit_sends) + ite(isT(msg, message.GlobalCommitRequest), 1, 0)
 //@   ensures ghost.rollback_sends == old(ghost.rollback_sends) + ite(isT(msg, message.GlobalRollbackRequest), 1, 0)
 //@   ensures ghost.other_sends == old(ghost.other_sends) + ite(isT(msg, message.GlobalBeginRequest) || isT(msg, message.GlobalCommitRequest) || isT(msg, message.GlobalRollbackRequest), 0, 1)
-//@   ensures ghost.commit_acked == (old(ghost.commit_acked) || (isT(msg, message.GlobalCommitRequest) && result1 == nil && result0.(message.GlobalCommitResponse).ResultCode != message.ResultCodeFailed))
-//@   ensures ghost.rollback_acked == (old(ghost.rollback_acked) || (isT(msg, message.GlobalRollbackRequest) && result1 == nil && result0.(message.GlobalRollbackResponse).ResultCode != message.ResultCodeFailed))
-//@   ensures ghost.commit_refused == (old(ghost.commit_refused) || (isT(msg, message.GlobalCommitRequest) && result1 == nil && result0.(message.GlobalCommitResponse).ResultCode == message.ResultCodeFailed))
-//@   ensures ghost.rollback_refused == (old(ghost.rollback_refused) || (isT(msg, message.GlobalRollbackRequest) && result1 == nil && result0.(message.GlobalRollbackResponse).ResultCode == message.ResultCodeFailed))
+//@   ensures ghost.commit_acked == (old(ghost.commit_acked) || (isT(msg, message.GlobalCommitRequest) && result1 == nil && result0 != nil && result0.(message.GlobalCommitResponse).ResultCode != message.ResultCodeFailed))
+//@   ensures ghost.rollback_acked == (old(ghost.rollback_acked) || (isT(msg, message.GlobalRollbackRequest) && result1 == nil && result0 != nil && result0.(message.GlobalRollbackResponse).ResultCode != message.ResultCodeFailed))
+//@   ensures ghost.commit_refused == (old(ghost.commit_refused) || (isT(msg, message.GlobalCommitRequest) && result1 == nil && result0 != nil && result0.(message.GlobalCommitResponse).ResultCode == message.ResultCodeFailed))
+//@   ensures ghost.rollback_refused == (old(ghost.rollback_refused) || (isT(msg, message.GlobalRollbackRequest) && result1 == nil && result0 != nil && result0.(message.GlobalRollbackResponse).ResultCode == message.ResultCodeFailed))
 //@   ensures isT(msg, message.GlobalCommitRequest) ==> ghost.commit_xid == msg.(message.GlobalCommitRequest).Xid
 //@   ensures !isT(msg, message.GlobalCommitRequest) ==> ghost.commit_xid == old(ghost.commit_xid)
 //@   ensures isT(msg, message.GlobalRollbackRequest) ==> ghost.rollback_xid == msg.(message.GlobalRollbackRequest).Xid
 //@   ensures !isT(msg, message.GlobalRollbackRequest) ==> ghost.rollback_xid == old(ghost.rollback_xid)
-//@   ensures result1 == nil && isT(msg, message.GlobalBeginRequest) ==> isT(result0, message.GlobalBeginResponse)
-//@   ensures result1 == nil && isT(msg, message.GlobalCommitRequest) ==> isT(result0, message.GlobalCommitResponse)
-//@   ensures result1 == nil && isT(msg, message.GlobalRollbackRequest) ==> isT(result0, message.GlobalRollbackResponse)
-//@   ensures result1 == nil && isT(msg, message.BranchRegisterRequest) ==> isT(result0, message.BranchRegisterResponse)
-//@   ensures result1 == nil && isT(msg, message.BranchReportRequest) ==> isT(result0, message.BranchReportResponse)
+//@   ensures result1 == nil && result0 != nil && isT(msg, message.GlobalBeginRequest) ==> isT(result0, message.GlobalBeginResponse)
+//@   ensures result1 == nil && result0 != nil && isT(msg, message.GlobalCommitRequest) ==> isT(result0, message.GlobalCommitResponse)
+//@   ensures result1 == nil && result0 != nil && isT(msg, message.GlobalRollbackRequest) ==> isT(result0, message.GlobalRollbackResponse)
+//@   ensures result1 == nil && result0 != nil && isT(msg, message.BranchRegisterRequest) ==> isT(result0, message.BranchRegisterResponse)
+//@   ensures result1 == nil && result0 != nil && isT(msg, message.BranchReportRequest) ==> isT(result0, message.BranchReportResponse)
 
 // ---- C14: request/response correlation (sequential contracts; sync.Map operations are atomic)
 
